@@ -62,6 +62,20 @@ def _inv_unit(ctx, q, reduce_first):
         k0 = z3.Int("k0")
         path.assume(ZAtom(z3.And(zt(a) == k0 * zt(n) + a0, a0 >= 0, a0 < zt(n))), "a0 = a mod n (witness k0)")
         g0 = _gcd(zt(n), a0)
+        # uniqueness of the remainder, made linear for the solver: the code's `a % n` (and, in prime_field_inv, the second
+        # `% n` of the already reduced value) come with quotient witnesses q; with d = (quotient difference) the two
+        # monotonicity instances  d >= 1 -> d*n >= n,  d <= -1 -> d*n <= -n  are proved on their own and then used
+        from pyvc.sym import sdivmod
+        q1, r1 = sdivmod(a, n)
+        diffs = [k0 - zt(q1)]
+        if reduce_first:
+            q2, r2 = sdivmod(r1, n)
+            diffs.append(zt(q2))
+        for i, d in enumerate(diffs):
+            for lem in (z3.Implies(d >= 1, d * zt(n) >= zt(n)), z3.Implies(d <= -1, d * zt(n) <= -zt(n))):
+                if path.prove(f"{q}/lemma.mod-unique", ZAtom(lem), kind="lemma",
+                              detail="monotonicity instance for the uniqueness of the remainder (n > 1)"):
+                    path.assume(ZAtom(lem), "proved lemma instance")
         it = mk_interp(ctx, q, loops={(q, 0): euclid_loop(q + "/loop0", a0, zt(n), g0)})
         kind, res = call_top(it, fv, [a, n])
         if kind == "raise":
@@ -78,7 +92,6 @@ def _inv_unit(ctx, q, reduce_first):
             path.prove(f"{q}/ensures.inverse", ZAtom(z3.Implies(z3.And(a0 != 0, g0 == 1), z3.BoolVal(False))),
                        detail="early return only for a = 0 (mod n)")
             return
-        from pyvc.sym import sdivmod
         high, lm = zt(ev["high"]), ev["lm"]
         # at exit low in {0, 1}; low = 0 contradicts gcd = 1:  gcd(high, 0) = high > 1  (ground instance)
         path.assume(ZAtom(z3.Implies(high > 0, _gcd(high, 0) == high)), "gcd(h, 0) = h at h = high")
